@@ -24,6 +24,8 @@ def all_cases(tier):
         for b in range(1, 7):
             for tr in ("none", "default", "identity", "scale"):
                 out.append({"kind": "loader", "n": n, "batch": b, "transform": tr})
+            for yl in ("column", "onehot3", "list"):          # label containers other than a 1-D array
+                out.append({"kind": "loader", "n": n, "batch": b, "transform": "default", "ylayout": yl})
     for alphabet in ([0, 1, 2, 5], ["a", "b"], [3, -1]):
         for L in range(1, 5):
             for seq in itertools.product(alphabet, repeat=L):
@@ -84,6 +86,10 @@ def judge(case):
     if case["kind"] == "loader":
         n, b, tr = case["n"], case["batch"], case["transform"]
         X = np.arange(n * 2, dtype=np.float32).reshape(n, 2); y = np.arange(n, dtype=np.float32) + 100
+        yl = case.get("ylayout")
+        if yl == "column": y = y.reshape(n, 1)
+        elif yl == "onehot3": y = np.stack([y, y + 0.25, y + 0.5], axis=1)
+        elif yl == "list": y = [float(t) for t in y]; X = [list(r) for r in X]
         calls = []
         class Ident(D.DataLoaderCallback):
             def __call__(self, dl, Xb, yb): calls.append(len(yb)); return Xb, yb
@@ -102,7 +108,7 @@ def judge(case):
                 if len(batches) != nb:
                     v("batch-count" if rep == 0 else "not-re-iterable", f"pass {rep}: {len(batches)} batches, expected {nb}"); break
                 for k, (Xb, yb) in enumerate(batches):
-                    eX, ey = X[k * b:(k + 1) * b], y[k * b:(k + 1) * b]
+                    eX, ey = np.asarray(X[k * b:(k + 1) * b]), np.asarray(y[k * b:(k + 1) * b])
                     if tr == "scale": eX, ey = eX * 2, ey + 1
                     if len(yb) != b or not (np.array_equal(np.asarray(Xb), eX) and np.array_equal(np.asarray(yb), ey)):
                         v("batch-content", f"pass {rep} batch {k}: labels {np.asarray(yb)}, expected {ey}"); break
@@ -143,7 +149,7 @@ def run(tier, seed):
     cov = {"evaluations": r["evaluations"], "distinct_nontrivial": r["distinct_nontrivial"],
            "rule": "split_dataset: n in 0..%d x test_split in {0,.1,.2,.25,.5,.75,1} x val_split in {None,0,.2,.5,1} x shuffle off / "
                    "EVERY permutation (n <= %d, scripted shuffle) / 3 real seeds; DataLoader: n in 0..10 x batch 1..6 x transform "
-                   "{omitted, None, identity callback, scaling callback}, two full passes + restart after a partial pass; one_hot_encode: "
+                   "{omitted, None, identity callback, scaling callback} and label containers {1-D array, (n,1) column, (n,3) rows, Python lists}, two full passes + restart after a partial pass; one_hot_encode: "
                    "every label sequence of length <= 4 over {0,1,2,5}, {'a','b'}, {3,-1}; non-trivial = at least 2 samples / a full batch"
                    % ((12, 4) if tier == "quick" else (16, 5)),
            "samples": r["samples"], "exhaustive": True, "outcomes": r["outcomes"]}
